@@ -1,0 +1,8 @@
+// Package simhook holds the seams a deterministic simulator needs and that the
+// code base does not otherwise offer: the iteration order of a few string-keyed
+// maps and the source of node identifiers.
+//
+// Everything here is inert unless the module is built with the "verif" build
+// tag AND a simulator has installed its callbacks; without the tag the package
+// contains a single function that always answers "no".
+package simhook
